@@ -423,6 +423,41 @@ func famDelivery(o *corr.Out, n int) {
 	}
 }
 
+// famLargeThenSmall: one large message followed by a long run of small ones on the same connection,
+// in either direction (the connection's reader reuses and, after a run of small packets, drops its
+// buffer): every message arrives intact.
+func famLargeThenSmall(o *corr.Out) {
+	for _, big := range []int{2000, 70000} {
+		for _, nsmall := range []int{12, 25} {
+			// client -> server
+			sc := &scenario{cfg: Config{}, class: "large-then-small"}
+			sc.do(fmt.Sprintf("new!n1!1!r%d.x!1", 1+nsmall))
+			sent := map[int][]int{}
+			sc.do(fmt.Sprintf("snd!s1.0!1!0!%d", big))
+			sent[1] = append(sent[1], big)
+			for k := 1; k <= nsmall; k++ {
+				sc.do(fmt.Sprintf("snd!s1.%d!1!%d!10", k, k))
+				sent[1] = append(sent[1], 10)
+			}
+			sc.do("cls!c1!1")
+			sc.do("rcv!r1.0!1")
+			sc.do("clo!x1!1")
+			deliveryOracle(o, sc, sent, map[int]bool{1: true})
+			finish(o, sc)
+			// server -> client
+			sc = &scenario{cfg: Config{}, class: "large-then-small"}
+			sc.do(fmt.Sprintf("new!n1!1!s1:%d.s%d:10.x!1", big, nsmall))
+			sc.do("cls!c1!1")
+			for k := 0; k <= nsmall+1; k++ {
+				sc.do(fmt.Sprintf("rcv!r1.%d!1", k))
+			}
+			sc.do("clo!x1!1")
+			deliveryOracle(o, sc, map[int][]int{}, map[int]bool{1: true})
+			finish(o, sc)
+		}
+	}
+}
+
 // Run runs the families selected by VERIF_E2E (comma separated; default: all).
 func Run(o *corr.Out) {
 	sel := os.Getenv("VERIF_E2E")
@@ -437,6 +472,7 @@ func Run(o *corr.Out) {
 	}
 	if want("delivery") {
 		famDelivery(o, 40*mul)
+		famLargeThenSmall(o)
 	}
 	if want("probe") {
 		famProbe(o, 60*mul)
